@@ -47,8 +47,23 @@ for _n in ("cwltool", "salad", "rdflib", "cwl_utils"):
     logging.getLogger(_n).setLevel(logging.CRITICAL)
 
 
+_LAST_WORKFLOW = [None]
+
+
+class _RecordingExecutor(cwl_main.StreamFlowExecutor):
+    """The repo's executor, unchanged; only remembers the workflow so that the oracle can read the step statuses."""
+
+    def __init__(self, workflow):
+        super().__init__(workflow)
+        _LAST_WORKFLOW[0] = workflow
+
+
+cwl_main.StreamFlowExecutor = _RecordingExecutor
+
+
 class CwlRun:
     def __init__(self):
+        self.step_statuses = None   # {step name: status name} of the executed workflow (when it got that far)
         self.status = None       # "ok" | "failed"
         self.outputs = None
         self.error = None
@@ -93,6 +108,9 @@ async def run_cwl(sim, wf, jobfile, outdir, name, keep_context=False) -> CwlRun:
             res.status = "failed"
             res.error = f"{type(e).__name__} at {repo_frame_of(e.__traceback__)}: {e}"[:500]
     finally:
+        wf_obj, _LAST_WORKFLOW[0] = _LAST_WORKFLOW[0], None
+        if wf_obj is not None:
+            res.step_statuses = {n: st.status.name for n, st in wf_obj.steps.items()}
         tempfile.tempdir = old_tmp
         if keep_context and res.status == "ok":
             res.context = context
